@@ -6,6 +6,9 @@
 //! usage: record_order <trace.ndjson> <seed> <events> <layout.json>
 #[path = "../rdata.rs"]
 mod rdata;
+#[path = "../order_carrier.rs"]
+mod order_carrier;
+use order_carrier::*;
 use rdata::gen::{random_rdata, Gen};
 use rdata::order::*;
 use serde_json::{json, Value};
@@ -57,6 +60,19 @@ fn parses(code: u16, rd: &[u8]) -> bool {
     }
 }
 
+/// the domain names in record data (label sequences, layout order); empty
+/// when the data does not parse or has none
+fn names_in(code: u16, rd: &[u8]) -> Vec<Vec<Vec<u8>>> {
+    let m = rdata::one_record_msg(&[0], code, rd);
+    match domain::base::message::Message::from_slice(&m) {
+        Ok(msg) => match rdata::parse_all(msg) {
+            Ok(r) => names_of_rdata(r.data()),
+            Err(_) => vec![],
+        },
+        Err(_) => vec![],
+    }
+}
+
 fn main() {
     quiet_panics();
     let args: Vec<String> = std::env::args().collect();
@@ -71,7 +87,7 @@ fn main() {
         .map(|v| v.as_u64().unwrap() as u16).collect();
     for i in 0..n {
         g.big = false;
-        let mut ev = match i % 5 {
+        let mut ev = match i % 7 {
             0 => {
                 let maxl = if g.rng.chance(1, 8) { 63 } else { 6 };
                 let la = 1 + g.rng.below(maxl) as usize;
@@ -156,6 +172,82 @@ fn main() {
                     let mut e = json!({"ev": "record", "a": recs[0], "b": recs[1]});
                     let (a, b) = (recs[0].clone(), recs[1].clone());
                     merge(&mut e, observe(|| observe_record_pair(&a, &b, false, false)));
+                    e
+                }
+            }
+            5 => {
+                // one name through a carrier / two names through two carriers
+                g.big = g.rng.chance(1, 6);
+                let a = match g.rng.below(10) {
+                    0 => vec![0],
+                    1 => {
+                        // a name of 255 octets
+                        let mut w = vec![];
+                        for l in [63usize, 63, 63, 61] {
+                            w.push(l as u8);
+                            w.extend(g.octets(l));
+                        }
+                        w.push(0);
+                        w
+                    }
+                    _ => g.name(),
+                };
+                if a.len() < 255 && g.rng.chance(1, 4) {
+                    // the same labels as a relative name
+                    let c = random_rel_carrier(&mut g.rng, &labels_of_wire(&a));
+                    let mut e = json!({"ev": "rcarrier", "c": c});
+                    merge(&mut e, observe(|| observe_rel_carrier(&c)));
+                    e
+                } else if g.rng.chance(1, 2) {
+                    let c = random_carrier(&mut g.rng, &labels_of_wire(&a), None);
+                    let mut e = json!({"ev": "carrier", "c": c});
+                    merge(&mut e, observe(|| observe_carrier(&c)));
+                    e
+                } else {
+                    let b = relabel(&mut g, &a);
+                    let ca = random_carrier(&mut g.rng, &labels_of_wire(&a), None);
+                    let cb = random_carrier(&mut g.rng, &labels_of_wire(&b), None);
+                    let mut e = json!({"ev": "cpair", "a": ca, "b": cb});
+                    merge(&mut e, observe(|| observe_carrier_pair(&ca, &cb)));
+                    e
+                }
+            }
+            6 => {
+                // record data with names (and a record around it), the names
+                // through carriers of one random shape
+                let (code, a) = loop {
+                    let (c, _, rd) = random_rdata(&mut g, &table, 1_000_000);
+                    if !names_in(c, &rd).is_empty() { break (c, rd); }
+                };
+                let b = match g.rng.below(4) {
+                    0 => a.clone(),
+                    1 => {
+                        let r = recase(&a, 1 + g.rng.below(3) as usize);
+                        if parses(code, &r) && names_in(code, &r).len() == names_in(code, &a).len() { r } else { a.clone() }
+                    }
+                    _ => loop {
+                        let (c, _, rd) = random_rdata(&mut g, &table, 1_000_000);
+                        if c == code && !names_in(c, &rd).is_empty() { break rd; }
+                    },
+                };
+                let names = names_in(code, &a);
+                if g.rng.chance(1, 2) {
+                    let sh = 1 + g.rng.below(24) as usize;
+                    let cs: Vec<Value> = names.iter().map(|n| random_carrier(&mut g.rng, n, Some(sh))).collect();
+                    let (ma, mb) = (rdata::one_record_msg(&[0], code, &a), rdata::one_record_msg(&[0], code, &b));
+                    let mut e = json!({"ev": "crdata", "rtype": code, "a": a, "b": b, "cs": cs});
+                    merge(&mut e, observe(|| observe_carried_rdata(&ma, &cs, &mb, false)));
+                    e
+                } else {
+                    let sh = *g.rng.pick(&[1usize, 5, 7, 11, 14, 23]);
+                    let cs: Vec<Value> = names.iter().map(|n| random_carrier(&mut g.rng, n, Some(sh))).collect();
+                    let owner = g.name();
+                    let oc = random_carrier(&mut g.rng, &labels_of_wire(&owner), None);
+                    let owner_b = if g.rng.chance(1, 2) { recase(&owner, g.rng.below(4) as usize) } else { relabel(&mut g, &owner) };
+                    let ra = json!({"class": 1, "owner": owner, "ttl": *g.rng.pick(&[0u32, 300, 3600]), "rtype": code, "rd": a});
+                    let rb = json!({"class": 1, "owner": owner_b, "ttl": *g.rng.pick(&[0u32, 300, 3600]), "rtype": code, "rd": b});
+                    let mut e = json!({"ev": "crecord", "a": ra, "b": rb, "oc": oc, "cs": cs});
+                    merge(&mut e, observe(|| observe_carried_record(&ra, &oc, &cs, &rb, false)));
                     e
                 }
             }
